@@ -37,7 +37,8 @@ MANIFEST = dict(
                 "emission loop (id cache, shared sort table, post-order emission, builders' normal forms, array-init broadcast, renaming and demotion by the reader); plus the node-level "
                 "lemmas and C09_reread_means_text_partial. Tie to /repo: real serialize + parse_str on generated, parsed and all shipped systems on every run."),
     level_note=("Hypotheses of the round trip: sys_ok_weak (sys_ok for the reader of /repo), pairwise distinct declared symbols (counterexample without: C09_dup_symbol_diverges), "
-                "all widths below 2^32, fewer than 2^32 lines. Not proved: that the reader's symbol names are pairwise distinct (injectivity of the positional renaming tau; tested by the "
-                "correspondence run) and names (roundtrip_full is false today): name-stability defects of the writer/reader pair are recorded as known findings (names:...); "
+                "all widths below 2^32, fewer than 2^32 lines. C09_roundtrip_complete adds the converse direction for closed systems (every environment of sy has a partner environment of the "
+                "system read back) using C09_accepted_symbols_distinct (the symbols of EVERY accepted system are pairwise distinct: unique_name is fresh). "
+                "Not proved: names (roundtrip_full is false today): name-stability defects of the writer/reader pair are recorded as known findings (names:...); "
                 "Model.serialize_named_v takes the writer variant (driver constant writer_variant)."),
 )
